@@ -252,14 +252,24 @@ func checkMem(tt *testing.T, c Case) (pbt.Info, error) {
 	if c.Transport == "mem1" {
 		mem.ProtoMajor = 1
 	}
-	ctx, cancel := context.WithCancel(context.Background())
-	defer cancel()
-	res := prog.RunClient(ctx, mem, c.Cfg, cp, cancel)
-	ex := mem.Last()
+	var res *prog.CResult
+	var ex *memnet.Exchange
+	// inside a bubble, so that a defect that leaves both sides waiting for
+	// bytes that never come is reported as a deadlock instead of hanging
+	if berr := pbt.Bubble(tt, func() error {
+		ctx, cancel := context.WithCancel(context.Background())
+		defer cancel()
+		res = prog.RunClient(ctx, mem, c.Cfg, cp, cancel)
+		if ex = mem.Last(); ex != nil {
+			<-ex.HandlerDone()
+		}
+		return nil
+	}); berr != nil {
+		return info, berr
+	}
 	if ex == nil {
 		return info, fmt.Errorf("no exchange happened: %v", res.Err)
 	}
-	<-ex.HandlerDone()
 	classify(c, &info, ex.ReqBody(), ex.RespBody())
 	return info, verdict(c, log, res)
 }
